@@ -247,4 +247,50 @@ theorem mpegts_eq (mx n per : Nat) (hm : mx < 2 ^ 63) (hn : n < 2 ^ 63) (hp : 0 
     unfold Trans.PcMpegts.needsOneMore Trans.PcMpegts.rtpPacketCount0
     split at h <;> rename_i hc <;> simp only [hc, ↓reduceIte] <;> exact h
 
+/-- MPEG-4 audio `writeFragmented`: `auHeadersLenBytes` (quotient by 8, plus one when the remainder is
+not zero) is the model's `ceil8 (sizeLength + indexLength)`, and `avail` is `max - 2 - that`;
+MPEG-1 video: `avail = max - 4`. -/
+theorem mpeg4audio_avail_eq (sl il mx : Nat) (hs : sl + il < 2 ^ 62) (hm : mx < 2 ^ 63)
+    (hfit : 2 + Codec.Audio.ceil8 (sl + il) ≤ mx) :
+    let hl := Trans.PcMpeg4audio.auHeadersLen (Int64.ofNat sl) (Int64.ofNat il)
+    let hb := if Trans.PcMpeg4audio.auHeadersRound hl then Trans.PcMpeg4audio.auHeadersLenBytes0 hl + 1
+              else Trans.PcMpeg4audio.auHeadersLenBytes0 hl
+    hb.toInt = (Codec.Audio.ceil8 (sl + il) : Nat)
+    ∧ (Trans.PcMpeg4audio.fragAvail (Int64.ofNat mx) hb).toInt = ((mx - 2 - Codec.Audio.ceil8 (sl + il) : Nat) : Int)
+    ∧ (4 ≤ mx → (Trans.PcMpeg1video.fragAvail (Int64.ofNat mx)).toInt = ((mx - 4 : Nat) : Int)) := by
+  intro hl hb
+  have hM := toInt_ofNat_of_lt hm
+  have c2 : (2 : Int64).toInt = 2 := rfl
+  have c4 : (4 : Int64).toInt = 4 := rfl
+  have hsum : hl = Int64.ofNat (sl + il) := by
+    apply Int64.toInt_inj.mp
+    show (Int64.ofNat sl + Int64.ofNat il).toInt = _
+    rw [toInt_add_of_inRange] <;> rw [toInt_ofNat_of_lt (by omega : sl < 2 ^ 63), toInt_ofNat_of_lt (by omega : il < 2 ^ 63)]
+    · rw [toInt_ofNat_of_lt (by omega : sl + il < 2 ^ 63)]; omega
+    · unfold InRange64; omega
+  have hb_eq : hb.toInt = (Codec.Audio.ceil8 (sl + il) : Nat) := by
+    have h := pcGen_eq 8 (sl + il) (by decide) (by decide) (by omega)
+    unfold pcGen pcNat at h
+    show (if Trans.PcMpeg4audio.auHeadersRound hl then Trans.PcMpeg4audio.auHeadersLenBytes0 hl + 1
+              else Trans.PcMpeg4audio.auHeadersLenBytes0 hl).toInt = _
+    rw [hsum]
+    unfold Trans.PcMpeg4audio.auHeadersRound Trans.PcMpeg4audio.auHeadersLenBytes0 Codec.Audio.ceil8
+    have e8 : Int64.ofNat 8 = (8 : Int64) := rfl
+    rw [e8] at h
+    split at h <;> rename_i hc <;> simp only [hc, ↓reduceIte] <;> exact h
+  refine ⟨hb_eq, ?_, ?_⟩
+  · unfold Trans.PcMpeg4audio.fragAvail
+    have hcl : Codec.Audio.ceil8 (sl + il) ≤ mx := by omega
+    have e1 : (Int64.ofNat mx - 2).toInt = (mx : Int) - 2 := by
+      rw [toInt_sub_of_inRange] <;> rw [hM, c2]
+      unfold InRange64; omega
+    rw [toInt_sub_of_inRange] <;> rw [e1, hb_eq]
+    · omega
+    · unfold InRange64; omega
+  · intro h4
+    unfold Trans.PcMpeg1video.fragAvail
+    rw [toInt_sub_of_inRange] <;> rw [hM, c4]
+    · omega
+    · unfold InRange64; omega
+
 end Rtsp.Bridge.Pc
